@@ -182,7 +182,12 @@ impl ast::Visit for Visitor<'_, '_> {
                 }
             },
             ast::StmtKind::AbsTimeLabel { .. } => {},
-            ast::StmtKind::RelTimeLabel { .. } => {},
+            // the time delta is an integer
+            ast::StmtKind::RelTimeLabel { delta, .. } => {
+                if let Err(e) = self.check_cond(delta) {
+                    self.errors.set(e);
+                }
+            },
             ast::StmtKind::Label { .. } => {},
             ast::StmtKind::ScopeEnd { .. } => {},
             ast::StmtKind::NoInstruction { .. } => {},
